@@ -193,6 +193,8 @@ def gen_c10(rng: random.Random, tier: str) -> Plan:
     # six variables (2x3 grids) now and then: inner regions with several partitionings, i.e.
     # mixing layers with more than one unit below the root
     rg = recipes.gen_rg(rng, max_vars=6 if rng.random() < 0.2 else 5)
+    if rng.random() < 0.01:
+        rg = recipes.gen_long_rg(rng)  # > 128 variables
     nv = recipes.rg_num_vars(rg)
     hand = (not poly) and rng.random() < 0.15
     if hand:
@@ -549,6 +551,8 @@ def gen_c19(rng: random.Random, tier: str) -> Plan:
             ["categorical", "categorical", "gaussian", "embedding", "binomial"] if monotonic
             else ["embedding", "embedding", "categorical", "gaussian"])
         rg = recipes.gen_rg(rng, max_vars=6 if rng.random() < 0.2 else 5)
+        if rng.random() < 0.01:
+            rg = recipes.gen_long_rg(rng)  # > 128 variables
         nv = recipes.rg_num_vars(rg)
         r0 = recipes.gen_rg_circuit(rng, monotonic=monotonic, rg=rg, kinds=kinds)
         if not monotonic and cfg["semiring"] == "complex-lse-sum" and rng.random() < 0.5:
@@ -682,6 +686,7 @@ def gen_c12(rng: random.Random, tier: str) -> Plan:
         cfg["dtype"] = "float32"
     if rng.random() < 0.4:
         r0 = recipes.gen_rg_circuit(rng, monotonic=True, normalized=True,
+                                    rg=recipes.gen_long_rg(rng) if rng.random() < 0.015 else None,
                                     max_vars=6 if rng.random() < 0.25 else 5,
                                     kinds=["categorical", "categorical", "binomial", "gaussian",
                                            "embedding"])
@@ -706,6 +711,15 @@ def gen_c12(rng: random.Random, tier: str) -> Plan:
                     "spec": {"opr": "integrate", "src": ["b0"], "scope": None,
                              "via": rng.choice(["symbolic", "pipeline"])}})
         names.append("d0")
+    if integrable and nv >= 2 and nv <= 8 and rng.random() < 0.35:
+        # the partition function by integration in stages: some variables first, then the rest
+        part = sorted(rng.sample(range(nv), rng.randint(1, nv - 1)))
+        ops.append({"op": "derive", "name": "p0", "seed": _seed(rng),
+                    "spec": {"opr": "integrate", "src": ["b0"], "scope": part, "via": "symbolic"}})
+        ops.append({"op": "derive", "name": "p1", "seed": _seed(rng),
+                    "spec": {"opr": "integrate", "src": ["p0"], "scope": None,
+                             "via": rng.choice(["symbolic", "pipeline"])}})
+        names += ["p0", "p1"]
     late_integrate = integrable and "d0" not in names
     n_ops = rng.randint(5, 11) if tier == "quick" else rng.randint(8, 24)
     scales = [0.5, 1.0, 3.0] if gaussian else [0.5, 2.0, 5.0, 10.0]
